@@ -91,6 +91,19 @@ var bodylessWrites = map[string][]int{
 	"sync/atomic.AndInt32": {0}, "sync/atomic.OrInt32": {0}, "sync/atomic.AndUint32": {0}, "sync/atomic.OrUint32": {0},
 }
 
+// Library functions that write through an argument by reflection or unsafe
+// code, which the SSA-level store census cannot see: index of the written
+// parameter (receiver = 0 for methods).
+var reflectiveWrites = map[string][]int{
+	"sort.Slice": {0}, "sort.SliceStable": {0}, "reflect.Copy": {0}, "reflect.Swapper": {0},
+	"encoding/json.Unmarshal": {1}, "(*encoding/json.Decoder).Decode": {1},
+	"encoding/asn1.Unmarshal": {1}, "encoding/asn1.UnmarshalWithParams": {1},
+	"github.com/zmap/zcrypto/encoding/asn1.Unmarshal": {1}, "github.com/zmap/zcrypto/encoding/asn1.UnmarshalWithParams": {1},
+	"encoding/xml.Unmarshal": {1}, "(*encoding/xml.Decoder).Decode": {1}, "(*encoding/gob.Decoder).Decode": {1},
+	"encoding/binary.Read": {2}, "io.ReadFull": {1}, "io.ReadAtLeast": {1},
+	"github.com/pelletier/go-toml.Unmarshal": {1}, "(*github.com/pelletier/go-toml.Tree).Unmarshal": {1}, "(*github.com/pelletier/go-toml.Decoder).Decode": {1},
+}
+
 func NewEffects(c *Ctx) *Effects {
 	e := &Effects{c: c, sum: map[*ssa.Function]*FSum{}, callees: map[ssa.CallInstruction][]*ssa.Function{}}
 	e.build()
@@ -474,6 +487,15 @@ func (e *Effects) analyse(f *ssa.Function) bool {
 	}
 	rc := e.newRootCtx(f)
 	changed := false
+	if idx, ok := reflectiveWrites[funcFullName(f)]; ok {
+		for _, i := range idx {
+			if i < 64 && s.modP&(1<<uint(i)) == 0 {
+				s.modP |= 1 << uint(i)
+				s.why[fmt.Sprintf("p%d", i)] = &Witness{Fn: f, Desc: funcFullName(f) + " writes through its argument by reflection"}
+				changed = true
+			}
+		}
+	}
 	addP := func(p uint64, w *Witness) {
 		for i := 0; i < 64; i++ {
 			if p&(1<<uint(i)) != 0 && s.modP&(1<<uint(i)) == 0 {
@@ -540,6 +562,15 @@ func (e *Effects) analyse(f *ssa.Function) bool {
 					case "copy", "delete", "clear":
 						if len(cc.Args) > 0 {
 							write(cc.Args[0], x.Pos(), bi.Name()+"("+apath(cc.Args[0])+", …)")
+						}
+					case "append":
+						// append(x, …) writes beyond len(x), which no holder of x can see —
+						// unless x was cut shorter first (x[:k], the in-place filter idiom):
+						// then the elements x[k:] of the original are overwritten.
+						if len(cc.Args) > 0 {
+							if sl := reslicedShorter(cc.Args[0], map[ssa.Value]bool{}); sl != nil {
+								write(sl.X, x.Pos(), "append to the shortened slice "+apath(sl)+" (overwrites the elements that follow)")
+							}
 						}
 					}
 					continue
@@ -631,6 +662,47 @@ func (e *Effects) bodyless(f *ssa.Function, s *FSum) bool {
 		}
 	}
 	return changed
+}
+
+// reslicedShorter: v is (through phis and earlier appends) a reslice x[…:k]
+// with an explicit upper bound — its length may be less than len(x) while it
+// shares x's backing array.
+func reslicedShorter(v ssa.Value, seen map[ssa.Value]bool) *ssa.Slice {
+	if seen[v] || len(seen) > 40 {
+		return nil
+	}
+	seen[v] = true
+	switch x := v.(type) {
+	case *ssa.Slice:
+		if x.High != nil {
+			if _, isStr := x.X.Type().Underlying().(*types.Basic); !isStr {
+				return x
+			}
+		}
+		return reslicedShorter(x.X, seen)
+	case *ssa.Phi:
+		for _, e := range x.Edges {
+			if r := reslicedShorter(e, seen); r != nil {
+				return r
+			}
+		}
+	case *ssa.Call:
+		if b, ok := x.Call.Value.(*ssa.Builtin); ok && b.Name() == "append" && len(x.Call.Args) > 0 {
+			return reslicedShorter(x.Call.Args[0], seen)
+		}
+	case *ssa.ChangeType:
+		return reslicedShorter(x.X, seen)
+	}
+	return nil
+}
+
+func funcFullName(f *ssa.Function) string {
+	if o := f.Object(); o != nil {
+		if fo, ok := o.(*types.Func); ok {
+			return fo.FullName()
+		}
+	}
+	return f.String()
 }
 
 func isPtr(t types.Type) bool {
